@@ -77,7 +77,11 @@ func grayRowOne(l *mc.Local, c grayCase) {
 				return
 			}
 		}
-		l.Distinct("nontrivial", fmt.Sprint("grayrow", c.Row[2:5], c.Row[0], c.Row[7]))
+		if len(c.Row) >= 8 && c.Part == "grayrow" {
+			l.Distinct("nontrivial", fmt.Sprint("grayrow", c.Row[2:5], c.Row[0], c.Row[7]))
+		} else {
+			l.Distinct("nontrivial", fmt.Sprint("grayrow", c.Row))
+		}
 	}
 }
 
@@ -201,6 +205,52 @@ func runValleyTies() {
 				row = append(row, tall*8+3) // the probe runs are interior pixels
 				for _, bin := range []string{"global", "hybrid"} {
 					grayRowOne(l, grayCase{"grayrow", row, "Gray", bin})
+				}
+			}
+		})
+}
+
+// runHistogramShapes: the black-point estimate walks over the histogram buckets between the two
+// peaks; which bucket wins depends on the SHAPE of the histogram (a valley directly above the dark
+// peak, directly below the light one, plateaus, a second peak next to the first). Every row made of
+// up to five runs, each run one of four adjacent grey levels (buckets d .. d+3) and 1, 3 or 10
+// pixels long, for d = 2, 14 and 27: GetBlackRow of both binarisers == the model, bit for bit.
+func runHistogramShapes() {
+	type run struct{ level, n int }
+	var rows [][]run
+	var gen func(cur []run)
+	gen = func(cur []run) {
+		if len(cur) >= 2 {
+			rows = append(rows, append([]run{}, cur...))
+		}
+		if len(cur) == 5 {
+			return
+		}
+		for lv := 0; lv < 4; lv++ {
+			if len(cur) > 0 && cur[len(cur)-1].level == lv {
+				continue
+			}
+			for _, n := range []int{1, 3, 10} {
+				gen(append(cur, run{lv, n}))
+			}
+		}
+	}
+	gen(nil)
+	const chunk = 512
+	rng(fmt.Sprintf("binarisers: histogram shapes: every row of 2..5 runs, each run one of four adjacent grey levels (buckets d..d+3) x 1, 3 or 10 pixels, for d in {2, 14, 27} x {global, hybrid}: GetBlackRow == sharpened-threshold model [%d rows x 3 offsets]", len(rows)), (len(rows)+chunk-1)/chunk,
+		func(i int) string { return fmt.Sprint("rows from ", i*chunk) },
+		func(l *mc.Local, i int) {
+			for k := i * chunk; k < (i+1)*chunk && k < len(rows); k++ {
+				for _, d := range []int{2, 14, 27} {
+					var row []int
+					for _, r := range rows[k] {
+						for q := 0; q < r.n; q++ {
+							row = append(row, (d+r.level)*8+4)
+						}
+					}
+					for _, bin := range []string{"global", "hybrid"} {
+						grayRowOne(l, grayCase{"grayrow-shape", row, "YUV", bin})
+					}
 				}
 			}
 		})
